@@ -101,10 +101,10 @@ void Composite::operator=(const Composite &other) {
 }
 
 DataHolder *Composite::getMember(const std::string &name) {
-    PSC::Variable *var = ctx->getVariable(name);
+    PSC::Variable *var = ctx->getVariable(name, false);
     if (var != nullptr) return var;
 
-    PSC::Array *arr = ctx->getArray(name);
+    PSC::Array *arr = ctx->getArray(name, false);
     return arr;
 }
 
